@@ -160,7 +160,12 @@ def apply1(data, mask, ax, fn, masked):
             raise OutOfDomain('min/max over zero-length axis')
         if data.dtype.kind not in 'fiub':
             raise OutOfDomain('non-numeric variable')
-        if masked and mask.any():
+        if fn[1] == 'median':
+            if masked and mask.any():
+                r = np.ma.median(np.ma.MaskedArray(data, mask=mask), axis=ax, keepdims=True)
+            else:
+                r = np.median(np.asarray(data), axis=ax, keepdims=True)
+        elif masked and mask.any():
             r = getattr(np.ma.MaskedArray(data, mask=mask), fn[1])(axis=ax, keepdims=True)
         else:
             r = getattr(np.asarray(data), fn[1])(axis=ax, keepdims=True)
@@ -169,6 +174,12 @@ def apply1(data, mask, ax, fn, masked):
         return rd, rm
     if data.dtype.kind not in 'fiub':
         raise OutOfDomain('non-numeric variable')
+    if fn[0] == 'c':     # convolution with explicit weights and mode
+        mode, w = fn[1], np.array(fn[2], dtype='f')
+        return _lanes_apply(lambda x: np.convolve(w, np.ma.getdata(x), mode=mode)
+                            if not np.ma.getmaskarray(x).any() else
+                            np.ma.masked_invalid(np.convolve(w, np.ma.filled(x.astype('d'), np.nan), mode=mode)),
+                            data, mask, ax, masked and bool(mask.any()))
     return _lanes_apply(FUNCS[fn[1]], data, mask, ax, masked and bool(mask.any()))
 
 
